@@ -67,3 +67,22 @@ Definition k_inc (fs : fsys) (root : loc) (directory : option str) (i : str) : o
               end
   | None => None
   end.
+
+(* ---- the domain in which the lexical reading IS the kernel's ---- *)
+(* every location the walk passes before a component (also before "", "." and
+   "..") is an existing directory: the spelling crosses no missing directory and
+   no regular file.  With the tree being link-free this is the whole condition. *)
+Fixpoint walk_ok (fs : fsys) (cur : loc) (comps : list str) : bool :=
+  match comps with
+  | [] => true
+  | c :: r => match kind_of fs cur with Some true => walk_ok fs (step cur c) r | _ => false end
+  end.
+Definition spelling_ok (fs : fsys) (cwd : loc) (p : str) : bool :=
+  walk_ok fs (if isabs p then [] else cwd) (split p).
+(* the compiler can be started in `directory` *)
+Definition dir_ok (fs : fsys) (root : loc) (directory : option str) : bool :=
+  match directory with
+  | None => true
+  | Some d => spelling_ok fs root d &&
+              match kind_of fs (resolve root d) with Some true => true | _ => false end
+  end.
